@@ -53,11 +53,15 @@ func (x *ctx) add(sig, what string) { x.fs = append(x.fs, finding{sig, what}) }
 const step = 10 * time.Second
 
 func (x *ctx) connect(name string, props *mqttx.Props) (*wire.Client, *mqttx.Packet, error) {
+	return x.connectCS(name, props, true)
+}
+
+func (x *ctx) connectCS(name string, props *mqttx.Props, clean bool) (*wire.Client, *mqttx.Packet, error) {
 	c, err := wire.Dial(name, x.b.Addr, mqttx.V5)
 	if err != nil {
 		return nil, nil, err
 	}
-	ack, err := c.Connect(&mqttx.Packet{ClientID: name, CleanStart: true, Props: props}, step)
+	ack, err := c.Connect(&mqttx.Packet{ClientID: name, CleanStart: clean, Props: props}, step)
 	if err != nil {
 		c.Close()
 		return nil, nil, err
@@ -407,7 +411,11 @@ func (x *ctx) inSize() error {
 
 // ---- outbound scripts ----------------------------------------------------------
 
-func (x *ctx) outbound() error {
+// outbound: the limits are those of the connection that receives. With resume, the session was created by an
+// earlier connection that declared other maxima (larger or smaller Maximum Packet Size, the largest Topic Alias
+// Maximum, aliases already bound); everything is published while the client is away and delivered to the second
+// connection, whose CONNECT alone counts.
+func (x *ctx) outbound(resume bool) error {
 	M, A := x.c.M, x.c.A
 	props := &mqttx.Props{}
 	if M != 0 {
@@ -416,14 +424,51 @@ func (x *ctx) outbound() error {
 	if A != 0 {
 		props.TopicAliasMax = &A
 	}
-	s, _, err := x.connect(x.id, props)
-	if err != nil {
-		return err
-	}
-	defer s.Close()
 	base := "o/" + x.id + "/"
-	if _, err := s.Subscribe([]mqttx.Sub{{Filter: base + "#", QoS: 1}}, 0, step); err != nil {
-		return err
+	var s *wire.Client
+	var err error
+	if resume {
+		exp := uint32(3600)
+		a1 := uint16(65535)
+		p1 := &mqttx.Props{SessionExpiry: &exp, TopicAliasMax: &a1}
+		m1 := uint32(100000)
+		if M == 0 || M == 200 {
+			m1 = 56 // the first connection was the restrictive one
+		}
+		p1.MaxPacketSize = &m1
+		first, _, err := x.connect(x.id, p1)
+		if err != nil {
+			return err
+		}
+		if _, err := first.Subscribe([]mqttx.Sub{{Filter: base + "#", QoS: 1}}, 0, step); err != nil {
+			return err
+		}
+		// bind a few aliases on the first connection
+		for i := 0; i < 3; i++ {
+			x.b.Srv.Publisher().Publish(&gmqtt.Message{Topic: fmt.Sprintf("%st%d", base, i+1), Payload: []byte("w"), QoS: 1})
+		}
+		x.b.Srv.Publisher().Publish(&gmqtt.Message{Topic: base + "t1", Payload: []byte("warm-up-end"), QoS: 1})
+		if err := first.WaitPayload("warm-up-end", step); err != nil {
+			return fmt.Errorf("warm-up: %w", err)
+		}
+		if err := first.Ping(step); err != nil {
+			return err
+		}
+		from := x.b.Log.Len()
+		first.Disconnect(0, nil)
+		if _, ok := x.b.Log.Wait(from, func(e broker.Event) bool { return e.Kind == "OnClosed" && e.Client == x.id }, step); !ok {
+			return fmt.Errorf("first connection not closed")
+		}
+		x.obs["outbound_resumed_sessions"]++
+	} else {
+		s, _, err = x.connect(x.id, props)
+		if err != nil {
+			return err
+		}
+		defer s.Close()
+		if _, err := s.Subscribe([]mqttx.Sub{{Filter: base + "#", QoS: 1}}, 0, step); err != nil {
+			return err
+		}
 	}
 	topics := []string{base + "t1", base + "t2", base + "longer/topic/3", base + "t4", base + "t5"}
 	type sent struct {
@@ -464,10 +509,30 @@ func (x *ctx) outbound() error {
 			pub(topics[(d+6)%len(topics)], int(M)+d)
 			pub(fmt.Sprintf("%sfresh%d", base, d+6), int(M)+d)
 		}
+		// too large whatever the broker does with the topic (alias-only PUBLISH included)
+		for k, extra := range []int{4, 5, 40, 500} {
+			t := topics[k%len(topics)]
+			pub(t, int(M)+len(t)+extra)
+			f := fmt.Sprintf("%sfreshbig%d", base, k)
+			pub(f, int(M)+len(f)+extra)
+		}
 	}
 	// sentinel (small, fits) then evaluate
 	sentinelTopic := base + "z"
 	x.b.Srv.Publisher().Publish(&gmqtt.Message{Topic: sentinelTopic, Payload: []byte("sentinel"), QoS: 1})
+	if resume {
+		exp := uint32(3600)
+		props.SessionExpiry = &exp
+		var ack *mqttx.Packet
+		s, ack, err = x.connectCS(x.id, props, false)
+		if err != nil {
+			return err
+		}
+		defer s.Close()
+		if !ack.SessionPresent {
+			return fmt.Errorf("session not resumed")
+		}
+	}
 	aliasTable := map[uint16]string{}
 	got := map[string]bool{}
 	resolve := func(p *mqttx.Packet, size int) string {
@@ -596,7 +661,9 @@ func runCase(c Case, idx int) (fs []finding, obs map[string]int, err error) {
 	case "in_size":
 		err = x.inSize()
 	case "outbound":
-		err = x.outbound()
+		err = x.outbound(false)
+	case "outbound_resume":
+		err = x.outbound(true)
 	}
 	for _, e := range b.Log.Events() {
 		if e.Kind == "OnClosed" && (strings.Contains(e.Err, "runtime error") || strings.Contains(e.Err, "index out of range") || strings.Contains(e.Err, "nil pointer")) {
@@ -627,16 +694,19 @@ func allCases(r *monitor.Run) []Case {
 		for k := 0; k < 4; k++ {
 			cs = append(cs, Case{Cfg: cf, Script: "outbound", M: ms[(i+k)%4], A: as[(i/4+k)%4]})
 		}
+		for k := 0; k < 2; k++ {
+			cs = append(cs, Case{Cfg: cf, Script: "outbound_resume", M: ms[(i+k)%4], A: as[(i/4+k+1)%4]})
+		}
 	}
 	if r.Quick() {
 		rng := r.Rand("sample")
 		rng.Shuffle(len(cs), func(i, j int) { cs[i], cs[j] = cs[j], cs[i] })
 		// make sure every script and the extreme values appear
-		keep := cs[:90]
-		for _, c := range cs[90:] {
+		keep := cs[:110]
+		for _, c := range cs[110:] {
 			if (c.Cfg.ReceiveMax == 65535 && c.Cfg.TopicAliasMax == 65535 && c.Script == "in_alias") || (c.Script == "outbound" && c.M == 48 && c.A == 65535 && c.Cfg.MaxInflight == 1) {
 				keep = append(keep, c)
-				if len(keep) > 100 {
+				if len(keep) > 120 {
 					break
 				}
 			}
